@@ -212,7 +212,7 @@ def run(ctx):
         if c.startswith("argmax::Command::") and t.j.get("callee_name") in ("arg", "args", "try_arg", "try_args", "arg_unchecked", "args_unchecked"):
             n_add += 1
             n = t.j.get("callee_name")
-            ok = (n == "try_arg" and f.path == C.matcher_impl(MULTI, "matches")) or (n == "try_args" and f.path == MULTI + "::new_command")
+            ok = (n == "try_arg" and f.path == C.matcher_impl(MULTI, "matches")) or (n == "try_args" and f.path in _command_factories(prog))
             ctx.ob("R3", "batch-entry:%s@%s" % (n, prim.short(f.path)), ok,
                    "argmax::Command::%s called in %s: paths may enter a batch only through try_arg in MultiExecMatcher::matches, fixed arguments only through try_args in new_command (argmax is the fit oracle; `arg`/`args` bypass it)" % (n, f.path), fn=f, where=prim.site(f, b), how="who-may-call (contract A1)")
     ctx.floor("R3", "argument-adding calls on argmax::Command", n_add, 3)
@@ -308,8 +308,12 @@ def run(ctx):
             if role(t) == "status":
                 o = prim.origin_of_operand(rc, t.args[0]).strip()
                 ctx.ob("R3", "runs-the-given-batch", o.k == "arg", "run_command runs %s" % o.fmt(), fn=rc, where=prim.site(rc, b), how="provenance slice", nontrivial=False)
-    nc = ctx.fn("R3", MULTI + "::new_command")
+    ctx.fn("R3", MULTI + "::new_command")
+    facs = [prog.fns[p_] for p_ in sorted(_command_factories(prog)) if any((t.callee or "").startswith("argmax::Command::new") for _, t in prog.fns[p_].calls())]
+    ctx.ob("R3", "command-factory", len(facs) == 1, "functions reachable from new_command that build the argmax command: %s; exactly one expected" % [f.path for f in facs], how="call-graph closure within the matcher")
+    nc = facs[0] if len(facs) == 1 else None
     if nc is not None:
+        ctx.analysed_fns.add(nc.path)
         news = [(b, t) for b, t in nc.calls() if (t.callee or "").startswith("argmax::Command::new")]
         tas = [(b, t) for b, t in nc.calls() if (t.callee or "").startswith("argmax::Command::try_args")]
         ok = len(news) == 1 and len(tas) == 1
@@ -535,3 +539,19 @@ def _cwd_table(ctx, rule, f, who):
     ctx.ob(rule, "cwd-table:%s" % who, ok,
            "%s working-directory decision: %s (+%d empty-parent tests); oracle: no parent -> the path itself ('/'), parent \"\" -> stay, otherwise chdir to the parent" % (who, [(k, d) for k, d, _ in got], len(empties)),
            fn=f, how="dominating guards on Path::parent()")
+
+
+def _command_factories(prog):
+    """new_command and the MultiExecMatcher helpers it delegates to"""
+    out = set()
+    st = [MULTI + "::new_command"]
+    while st:
+        p = st.pop()
+        if p in out or p not in prog.fns:
+            continue
+        out.add(p)
+        for _, t in prog.fns[p].calls():
+            c = t.callee or ""
+            if c.startswith(MULTI + "::"):
+                st.append(c)
+    return out
